@@ -53,6 +53,12 @@ pub fn run(args: &Args, r: &mut Report) {
             case.preload.insert("consecutive_failed_update_checks".into(), Val::I(rng.range(0, 5)));
             case.preload.insert("last_update_time".into(), Val::I(1_600_000_000_000_000 + rng.range(0, 1_000_000)));
         }
+        // a backend that cannot write an unrelated entry must not keep the counter / last contact from being stored
+        if rng.chance(1, 6) {
+            let k = if rng.bool() { "server_dictated_poll_interval".to_string() } else { case.setup.apps[0].id.clone() };
+            case.shape.push(format!("failkey:{}", if k.starts_with('{') { "app" } else { &k }));
+            case.fault.fail_keys.push(k);
+        }
         case.sched = Sched::Fifo;
         case.shape.push(l1);
         case.nontrivial = true;
